@@ -5,7 +5,7 @@
 // on", "no operand is ever evaluated twice" - for every evaluation of the expression, and it names calls
 // "through `go`" itself, i.e. script code that runs while other script code runs. It makes no exception
 // for what else is being evaluated at that moment. Here a host parses a program once and runs the tree in
-// 2-8 goroutines, each in a fresh environment of its own (own probe log, own variables), so the runs share
+// 2-8 (mostly 2-4) goroutines, each in a fresh environment of its own (own probe log, own variables), so the runs share
 // nothing a script can name; each run is judged on its own against the reference interpreter, like a
 // solitary run of sub-check `evalorder`. On a correct interpreter the sub-check always passes; against a
 // faulty one detection depends on the schedule (and is void with GOMAXPROCS=1).
@@ -27,6 +27,10 @@ type SCase struct {
 	Warm    bool           `json:"warm"`             // one complete solitary run has finished before the simultaneous ones start
 	Rounds  int            `json:"rounds,omitempty"` // the experiment is done this many times, each on a fresh parse
 	Meets   int            `json:"meets"`            // meeting points in the program
+	// Go: the simultaneous runs are calls of ONE script function (the program is its body) started by `go`
+	// statements of one script in one environment, every call with probe functions of its own; otherwise
+	// host goroutines run the parsed program, each in an environment of its own
+	Go bool `json:"go,omitempty"`
 	GenFeat map[string]int `json:"genfeat,omitempty"`
 }
 
@@ -86,7 +90,13 @@ func genSameTree(t *rapid.T) SCase {
 		prog = append(prog, &N{K: "try", Ss: [][]*N{{r}, {{K: "expr", Ns: []*N{P(int64(9000 + i))}}}}})
 	}
 	prog = append(prog, &N{K: "ret", Ns: []*N{{K: "list", Ns: []*N{Id("x"), Id("y"), Id("z"), Id("acc"), gg.anyE(1)}}}})
-	return SCase{Prog: prog, Workers: gg.n(2, 8, "workers"), Warm: gg.n(0, 4, "warm") == 0, Rounds: gg.n(1, 2, "rounds"), Meets: meets, GenFeat: gg.feat}
+	// two runs are enough for an overlap; every further one makes a meeting more expensive (all of them
+	// have to be on a processor at the same moment), so more than four are rare
+	workers := gg.n(2, 4, "workers")
+	if gg.n(0, 9, "many") == 0 {
+		workers = gg.n(5, 8, "workers")
+	}
+	return SCase{Go: gg.n(0, 2, "through_go") == 0, Prog: prog, Workers: workers, Warm: gg.n(0, 4, "warm") == 0, Rounds: gg.n(1, 2, "rounds"), Meets: meets, GenFeat: gg.feat}
 }
 
 func oracleSameTree(c SCase, o *h.Obs) *h.Fail {
@@ -104,7 +114,12 @@ func oracleSameTree(c SCase, o *h.Obs) *h.Fail {
 	}
 	metAll := true
 	for r := 0; r < rounds; r++ {
-		v := JudgeShared(c.Prog, c.Workers, c.Warm)
+		var v *SharedVerdict
+		if c.Go {
+			v = JudgeSharedGo(c.Prog, c.Workers, c.Warm)
+		} else {
+			v = JudgeShared(c.Prog, c.Workers, c.Warm)
+		}
 		o.Key = fmt.Sprintf("%d|%v|%d|%s", c.Workers, c.Warm, rounds, v.Src)
 		o.Note = fmt.Sprintf("workers=%d warm=%v rounds=%d\n%s", c.Workers, c.Warm, rounds, v.Src)
 		if v.Excluded != "" {
@@ -113,6 +128,20 @@ func oracleSameTree(c SCase, o *h.Obs) *h.Fail {
 		}
 		if !v.OK {
 			who := fmt.Sprintf("round %d of %d, %s: ", r+1, rounds, v.Phase)
+			if c.Go {
+				what := map[bool]string{true: "the function had been called once before", false: "nobody had called the function before"}[c.Warm]
+				switch v.Phase {
+				case "first":
+					who += "the first, solitary call of the script function work (its body is the program)"
+				case "together":
+					who += fmt.Sprintf("call %d of the %d calls of the one script function work that `go` statements had started and that went on at the same time (%s: %s), each with probe functions of its own", v.Worker, c.Workers, phase, what)
+				default:
+					who += fmt.Sprintf("a solitary call of the script function work after %d calls of it started by `go` had gone on at the same time (%s)", c.Workers, phase)
+				}
+				f := h.Failf("C07|same-function-through-go-"+v.Phase+"|"+v.Clause, "%s\nscript (meet() is where the calls wait for each other):\n%s\n%s", who, v.Src, v.Detail)
+				f.NoShrink = v.Phase != "first"
+				return f
+			}
 			switch v.Phase {
 			case "first":
 				who += "the first, solitary run of the parsed tree"
@@ -130,6 +159,11 @@ func oracleSameTree(c SCase, o *h.Obs) *h.Fail {
 		metAll = metAll && v.Met == c.Meets
 	}
 	o.NonTrivial = countProbes(c.Prog) >= 3
+	if c.Go {
+		o.Class("sametree_calls_of_one_function_started_by_go")
+	} else {
+		o.Class("sametree_host_goroutines_run_one_parsed_program")
+	}
 	o.Class("sametree_" + phase)
 	o.Class("sametree_workers_%d", c.Workers)
 	o.Class("sametree_rounds_%d", rounds)
